@@ -86,7 +86,7 @@ def interpreter_trace(dag, prog):
     symbolic here)."""
     import numpy as np
     from dagrt.exec_numpy import NumpyInterpreter
-    funcs = {"<func>f": lambda t, u: -2 * u if not isinstance(u, (int, float)) else -2 * u,
+    funcs = {"<func>f": lambda *a, **k: -2 * a[-1] if a else 1,
              "<func>g": lambda *a, **k: 3, "<func>h": lambda a, b: (a, b), "<func>h2": lambda *a, **k: (1, 2)}
     it = NumpyInterpreter(dag, function_map=funcs)
     roles = pg.var_roles(prog)
@@ -103,7 +103,12 @@ def interpreter_trace(dag, prog):
             if len(out) > 20:
                 break
     except Exception as e:  # noqa
-        out.append("exc:" + type(e).__name__)
+        # an error raised by a Raise statement is an observable result; a Python-level error (IndexError, TypeError, ...)
+        # of an ill-formed program is not: when two independent statements both fail, which one is met first is
+        # legitimately schedule-dependent (false alarm corrected, DESIGN.md 12.4)
+        from vf import stmtdsl
+        own = any(isinstance(e, c) for c in stmtdsl.ERR_CLASSES.values())
+        out.append("exc:" + (type(e).__name__ if own else "!python-level error"))
     return out
 
 
